@@ -256,11 +256,27 @@ pub fn gen_strtab(rng: &mut Rng, n: usize, thorough: bool) -> Vec<Case> {
             }
         }
     }
+    // strings made of bytes a word-at-a-time NUL search can mistake for a terminator (0x01, 0x80, 0x81, 0xff),
+    // ending right before their NUL, at every alignment within an 8-byte word
+    for pre in 0..9usize {
+        for body in [&[0x01u8][..], &[b'a', 0x01], &[0x01, 0x01, 0x01], &[0x80], &[b's', b'y', b'm', b'.', 0x01], &[0x81, 0x01], &[0x7f, 0x01]] {
+            let mut t = vec![0u8];
+            t.extend(std::iter::repeat(b'p').take(pre));
+            let start = t.len() - pre;
+            t.extend(body);
+            t.push(0);
+            t.extend(b"pad_pad_pad_pad\0");
+            for off in [start, start + pre, 1] {
+                out.push((format!("strtab {} {}", off.min(t.len()), hex(&t)), "-".into()));
+            }
+        }
+    }
     for _ in 0..n {
         let len = match rng.below(4) { 0 => rng.below(4096), _ => rng.below(40) } as usize;
         let mut t: Vec<u8> = (0..len)
             .map(|_| match rng.below(8) {
                 0 | 1 => 0u8,
+                3 if len > 0 => *rng.pick(&[0x01u8, 0x01, 0x02, 0x7f, 0x80, 0x81, 0xfe]),
                 2 => *rng.pick(&[0xC3u8, 0xA9, 0xE2, 0x82, 0xAC, 0xF0, 0x9F, 0x98, 0x80, 0xED, 0xA0, 0xFF, 0xC0]),
                 _ => rng.range(0x20, 0x7e) as u8,
             })
